@@ -154,6 +154,25 @@ pub fn c14(h: &mut H) {
                 z["proof_C_Ctrusted"] = Value::Null;
                 gate(h, "trusted_subproof_removed", &bases, &z, &iss.c, ctv.as_ref(), iss.cpk.as_ref(), &hidden, &k);
             }
+            // proofs produced by the real prover from a witness that does not fit the statement
+            {
+                // (i) the prover claims other hidden attributes than the ones committed in C
+                let (zl, _) = call(h, "cl.zkgen", vec![ivs(&other), iss.c.clone(), iss.ct.clone().unwrap_or(Value::Null), k.pk.clone(), ivs(&bases), iss.cpk.clone().unwrap_or(Value::Null), uv(&hidden)], vec![]);
+                if let Some(zl) = zl.ok().cloned() {
+                    gate(h, "witness_other_attributes", &bases, &zl, &iss.c, ctv.as_ref(), iss.cpk.as_ref(), &hidden, &k);
+                }
+                // (ii) C and C_trusted commit to different attributes; the prover knows both openings
+                if with_trusted {
+                    let (ct2, _) = call(h, "cl.commitcpk", vec![tcpk.clone(), ivs(&other), uv(&hidden)], vec![]);
+                    if let Some(ct2) = ct2.ok().cloned() {
+                        let (zl, _) = call(h, "cl.zkgen", vec![ivs(&iss.msgs), iss.c.clone(), ct2.clone(), k.pk.clone(), ivs(&bases), iss.cpk.clone().unwrap_or(Value::Null), uv(&hidden)], vec![]);
+                        if let Some(zl) = zl.ok().cloned() {
+                            let v2 = com_value(&ct2);
+                            gate(h, "witness_trusted_differs", &bases, &zl, &iss.c, Some(&v2), iss.cpk.as_ref(), &hidden, &k);
+                        }
+                    }
+                }
+            }
             // minimum / maximum blindings (boundary tapes): the proof must still verify
             for mx in [false, true] {
                 let bt = boundary_tape(&iss.zk_tape, mx);
